@@ -257,6 +257,9 @@ class LazyMixin:
         for f in facts:
             self.side_fact(z3.ForAll([var], z3.Implies(dom, f)))
         if lz.kind == "set":
+            if z3.eq(elt.term, var):
+                # {x for x in S if c(x)}: the element is the bound variable itself - no existential needed
+                return SV(z3.Lambda([var], z3.And(dom, cond)), T.Set(elt.ty), fresh=True)
             v = z3.Const(f"sv${len(self.binders)}", self.w.sort(elt.ty))
             body = z3.Exists([var], z3.And(dom, cond, elt.term == v))
             return SV(z3.Lambda([v], body), T.Set(elt.ty), fresh=True)
